@@ -249,6 +249,53 @@ def opDim (args : List String) : String :=
     | _, _, _, _, _ => "bad-op"
   | _ => "bad-op"
 
+/-- `scaled <cell> <pbc> <wrap 0|1> <points>` / `cartesian <cell> <pbc> <wrap 0|1> <fracs>` -/
+def opFrame (toScaledOp : Bool) (args : List String) : String :=
+  open Matid.Frame in
+  match args with
+  | [cs, ps, ws, pts] =>
+    match parseCell? cs, parsePbc? ps, parseBool? ws, parseV3s? pts with
+    | some c, some p, some w, some l =>
+      if toScaledOp then
+        match l.mapM (fun x => toScaledW c x w p) with
+        | some r => ";".intercalate (r.map showV)
+        | none => "singular"
+      else ";".intercalate (l.map fun x => showV (toCartesianW c x w p))
+    | _, _, _, _ => "bad-op"
+  | _ => "bad-op"
+
+/-- `mincell <cell> <axis> <minSize> <s or -> <fracs>` : decision (inflate or not) and, for the given scale s
+(extent when not inflated), the new cell row and fractional coordinates -/
+def opMinCell (args : List String) : String :=
+  open Matid.Frame in
+  match args with
+  | [cs, axS, msS, sS, frS] =>
+    match parseCell? cs, axS.toNat?, parseRat? msS, parseV3s? frS with
+    | some c, some ax, some ms, some fr =>
+      if fr.isEmpty || ax > 2 then "bad-op" else
+      let infl := inflates c fr ax ms
+      let (lo, hi) := extent fr ax
+      let s? : Option Rat := if infl then parseRat? sS else some (hi - lo)
+      match s? with
+      | none => "inflated=1 need-s"
+      | some s =>
+        if s == 0 then "inflated=" ++ showBool infl ++ " zero-scale" else
+        let (nc, nf) := minimizedWith c fr ax s infl
+        "inflated=" ++ showBool infl ++ " row=" ++ showV (nc.row ax) ++ " fracs=" ++ ";".intercalate (nf.map showV)
+    | _, _, _, _ => "bad-op"
+  | _ => "bad-op"
+
+/-- `inertia <centre> <positions> <weights>` -/
+def opInertia (args : List String) : String :=
+  match args with
+  | [cS, pS, wS] =>
+    match parseV3s? cS, parseV3s? pS, parseList? parseRat? wS with
+    | some [c], some ps, some ws =>
+      let t := Matid.Frame.inertia c ps ws
+      ",".intercalate ([t.1, t.2.1, t.2.2.1, t.2.2.2.1, t.2.2.2.2.1, t.2.2.2.2.2].map showRat)
+    | _, _, _ => "bad-op"
+  | _ => "bad-op"
+
 end geom
 
 def step (line : String) : String :=
@@ -266,6 +313,10 @@ def step (line : String) : String :=
   | "disp" :: args => opDisp args
   | "match" :: args => opMatch args
   | "dim" :: args => opDim args
+  | "scaled" :: args => opFrame true args
+  | "cartesian" :: args => opFrame false args
+  | "mincell" :: args => opMinCell args
+  | "inertia" :: args => opInertia args
   | _ => "bad-op"
 
 partial def loop (h : IO.FS.Stream) (out : IO.FS.Stream) : IO Unit := do
